@@ -51,7 +51,47 @@ pub(in super::super) fn compile_query(
     let query = postprocess::postprocess(query, &mut ctx);
     debug::log_entry(|| debug::DebugEntryKind::ReprPq(query.clone()));
 
+    // verification hook: the names behind the ids of the final PQ (ReprPq carries ids only)
+    #[cfg(prqlc_verif)]
+    log::debug!("verif:pq-names {}", verif_pq_names(&ctx.anchor));
+
     Ok((query, ctx))
+}
+
+/// verification hook: table declarations, relation instances (alias, source table, columns) and column names of
+/// the anchor context, sorted by id so that the text is deterministic
+#[cfg(prqlc_verif)]
+fn verif_pq_names(anchor: &AnchorContext) -> serde_json::Value {
+    use serde_json::json;
+
+    let tables = (anchor.table_decls.iter())
+        .sorted_by_key(|(tid, _)| tid.get())
+        .map(|(tid, d)| {
+            json!({"tid": tid.get(), "name": d.name.as_ref().map(|i| i.to_string()),
+                   "redirect_to": d.redirect_to.map(|t| t.get())})
+        })
+        .collect_vec();
+    let instances = (anchor.relation_instances.iter())
+        .sorted_by_key(|(riid, _)| **riid)
+        .map(|(riid, ri)| {
+            let columns = (ri.table_ref.columns.iter())
+                .map(|(col, cid)| {
+                    let name = match col {
+                        rq::RelationColumn::Wildcard => Some("*".to_string()),
+                        rq::RelationColumn::Single(name) => name.clone(),
+                    };
+                    json!({"cid": cid.get(), "name": name})
+                })
+                .collect_vec();
+            json!({"riid": riid, "alias": ri.table_ref.name, "source": ri.table_ref.source.get(), "columns": columns})
+        })
+        .collect_vec();
+    let columns = (anchor.column_names.iter())
+        .sorted_by_key(|(cid, _)| cid.get())
+        .map(|(cid, name)| json!({"cid": cid.get(), "name": name}))
+        .collect_vec();
+    let reserved = anchor.reserved_table_names.iter().sorted().collect_vec();
+    json!({"tables": tables, "instances": instances, "columns": columns, "reserved": reserved})
 }
 
 fn compile_relation(relation: RelationAdapter, ctx: &mut Context) -> Result<pq::SqlRelation> {
